@@ -35,7 +35,10 @@ func isMacroDefinition(node ast.Node) bool {
 	if !ok {
 		return false
 	}
-	_, ok = exp.Right.(*ast.MacroLiteral)
+	if _, ok = exp.Right.(*ast.MacroLiteral); !ok {
+		return false
+	}
+	_, ok = exp.Left.(*ast.Identifier) // m.x = macro(...) is not a macro definition.
 	return ok
 }
 
